@@ -6,6 +6,7 @@ import (
 	"errors"
 	"fmt"
 	"sort"
+	"strings"
 
 	"github.com/thomasjungblut/go-sstables/memstore"
 	"github.com/thomasjungblut/go-sstables/skiplist"
@@ -295,6 +296,25 @@ func (c c14) Run(ctx *core.Ctx) error {
 	}
 	ctx.Ev.Bounds["large_universe_keys"] = len(big)
 	ctx.Ev.Bounds["large_universe_depth"] = 3
+	// population pass: many distinct keys (allocation chunking, skip-list height, size accounting only show with many keys)
+	nmax := 4100
+	if ctx.Tier == "thorough" {
+		nmax = 40000
+	}
+	cases = cases[:0]
+	for _, order := range []string{"asc", "desc", "mixed"} {
+		for _, pat := range []string{"upsert", "tomb", "alt", "add-then-delete"} {
+			cases = append(cases, core.J(c14Case{Kind: "wide", Path: []msOp{{Op: order + "/" + pat, K: nmax}}}))
+		}
+	}
+	rs = ctx.Pmap(cases)
+	ctx.Fold(rs, cases)
+	for i, r := range rs {
+		if r.Died {
+			ctx.Report(core.Violation{Desc: "worker died: " + r.DiedMsg, Case: cases[i]})
+		}
+	}
+	ctx.Ev.Bounds["population_pass"] = fmt.Sprintf("every population 1..%d of distinct keys in 3 insertion orders x 4 fill patterns; all observers compared at every size 2^k-1, 2^k, 2^k+1 and at the end, then every key overwritten/tombstoned once more and compared again", nmax)
 	return nil
 }
 
@@ -412,8 +432,119 @@ func (c c14) Case(w *core.WCtx, payload json.RawMessage) core.Result {
 		sort.Strings(r.Keys)
 		r.Keys = uniq(r.Keys)
 		r.Outcome = fmt.Sprintf("deep ok=%v", len(r.Viol) == 0)
+	case "wide":
+		c14Wide(cs, &r)
 	}
 	return r
+}
+
+// c14Wide fills one memstore with many distinct keys and compares all observers at the sizes where
+// chunked allocation or level changes would show.
+func c14Wide(cs c14Case, r *core.Result) {
+	spec, nmax := cs.Path[0].Op, cs.Path[0].K
+	var order, pat string
+	fmt.Sscanf(strings.Replace(spec, "/", " ", 1), "%s %s", &order, &pat)
+	keys := make([]string, nmax)
+	for i := range keys {
+		keys[i] = fmt.Sprintf("k%06d", i)
+	}
+	seq := make([]int, nmax)
+	for i := range seq {
+		switch order {
+		case "asc":
+			seq[i] = i
+		case "desc":
+			seq[i] = nmax - 1 - i
+		default:
+			seq[i] = (i * 7919) % nmax // 7919 is prime and does not divide nmax: a permutation
+		}
+	}
+	if order == "mixed" {
+		seen := map[int]bool{}
+		for _, x := range seq {
+			seen[x] = true
+		}
+		if len(seen) != nmax {
+			panic("harness: mixed order is not a permutation")
+		}
+	}
+	check := map[int]bool{nmax: true}
+	for p := 2; p <= nmax; p *= 2 {
+		check[p-1], check[p], check[p+1] = true, true, true
+	}
+	ms := memstore.NewMemStore()
+	m := msModel{}
+	step := func(op msOp) bool {
+		want := m.apply(keys, op)
+		got := msApplyImpl(ms, keys, op)
+		r.Trans++
+		if !sameErr(got, want) {
+			r.Viol = append(r.Viol, core.Violation{Desc: fmt.Sprintf("population pass %s at size %d: %v returned %v want %v", spec, len(m), op, got, want)})
+			return false
+		}
+		return true
+	}
+	observe := func(when string) bool {
+		r.Traces++
+		for _, b := range msObserve(ms, m, keys[:0], r) { // size + full iteration
+			r.Viol = append(r.Viol, core.Violation{Desc: fmt.Sprintf("population pass %s %s (size %d): %s", spec, when, len(m), b)})
+		}
+		// point lookups of every key inserted so far
+		var have []string
+		for k := range m {
+			have = append(have, k)
+		}
+		sort.Strings(have)
+		for _, b := range msObserve(ms, m, have, r) {
+			r.Viol = append(r.Viol, core.Violation{Desc: fmt.Sprintf("population pass %s %s (size %d): %s", spec, when, len(m), b)})
+			if len(r.Viol) > 5 {
+				return false
+			}
+		}
+		return len(r.Viol) == 0
+	}
+	for i, k := range seq {
+		var ops []msOp
+		switch pat {
+		case "upsert":
+			ops = []msOp{{Op: "Upsert", K: k, V: i % 3}}
+		case "tomb":
+			ops = []msOp{{Op: "Tombstone", K: k}}
+		case "alt":
+			if i%2 == 0 {
+				ops = []msOp{{Op: "Upsert", K: k, V: i % 3}}
+			} else {
+				ops = []msOp{{Op: "Tombstone", K: k}}
+			}
+		default:
+			ops = []msOp{{Op: "Add", K: k, V: i % 3}}
+			if i%3 == 0 {
+				ops = append(ops, msOp{Op: "Delete", K: k})
+			}
+		}
+		for _, op := range ops {
+			if !step(op) {
+				return
+			}
+		}
+		if check[i+1] && !observe("while filling") {
+			return
+		}
+	}
+	// second round over every key: the state of one key must not depend on the others
+	for i, k := range seq {
+		op := msOp{Op: "Upsert", K: k, V: (i + 1) % 3}
+		if i%4 == 1 {
+			op = msOp{Op: "Tombstone", K: k}
+		}
+		if !step(op) {
+			return
+		}
+	}
+	observe("after the second round")
+	r.Keys = append(r.Keys, core.HashKey("wide", spec))
+	r.Outcome = fmt.Sprintf("wide ok=%v", len(r.Viol) == 0)
+	r.Sample = string(core.J(map[string]any{"kind": "population pass", "spec": spec, "keys": nmax}))
 }
 
 func uniq(s []string) []string {
